@@ -267,8 +267,11 @@ where
             * (self.font.character_size.width + self.font.character_spacing))
             .saturating_sub(self.font.character_spacing);
 
+        // The underline of the larger fonts lies inside the character cell, the bounding box is
+        // never smaller than the cell.
         let bb_height = if self.underline_color != DecorationColor::None {
-            self.font.underline.height + self.font.underline.offset
+            (self.font.underline.height + self.font.underline.offset)
+                .max(self.font.character_size.height)
         } else {
             self.font.character_size.height
         };
